@@ -142,6 +142,18 @@ TABLE={ # id: (property, demo file, package dir, -run pattern, needs)
  "C04-g":("C04","zz_seed_demo_test.go","transports/http/endpoints/api/headers","TestSeedDemo","GET byHeight with height=0"),
  "C07-g":("C07","zz_seed_demo_test.go","transports/p2p/p2psync","TestSeedDemo","a checkpoint-contradicting header delivered by a peer that is not the current sync peer"),
  "C06-h":("C06","zz_seed_demo_test.go","transports/p2p/p2psync","TestSeedDemo","the sync peer leaves while the service is behind it and it was the last (or the randomly re-chosen) candidate; an honest peer connects later"),
+ "C11-h":("C11","zz_seed_demo_test.go","service","TestSeedDemo","a fork or reorganisation header: the event is built before the state is finalised"),
+ "C14-h":("C14","zz_seed_demo_test.go","internal/wire","TestSeedDemo","a frame whose command field is a known command, a NUL, then a non-NUL byte in the padding"),
+ "C12-i":("C12","zz_seed_demo_test.go","transports/http/client","TestSeedDemo","the real HTTP client and a 200 reply whose body arrives after the headers"),
+ "C18-g":("C18","zz_seed_demo_test.go","transports/p2p","TestSeedDemo","a second ban of a host while its first ban runs, then a connection after the first expiry but before the second"),
+ "C20-d":("C20","zz_seed_demo_test.go","config","TestSeedDemo","a config file is read, an environment override is set for a key the file does not mention"),
+ "C05-i":("C05","zz_seed_demo_test.go","database","TestSeedDemo","a write statement failing inside an open transaction while the rollback succeeds"),
+ "C10-g":("C10","zz_seed_demo_test.go","transports/http/endpoints/api/access","TestSeedDemo","a configured admin token longer than 32 characters"),
+ "C03-h":("C03","zz_seed_demo_test.go","database","TestSeedDemo","a stored work or cumulative work value needing more than 64 significant bits, read back through SQL"),
+ "C15-g":("C15","zz_seed_demo_test.go","internal/transports/p2p/peer","TestSeedDemo","experimental engine, two peers (each with its own copy of the chain service and its lock) delivering competing headers at once"),
+ "C01-h":("C01","zz_seed_demo_test.go","service","TestSeedDemo","a non-longest header at the tip's height stored before the tip, after a migration drops the (height, header_state) index"),
+ "C16-i":("C16","zz_seed_demo_test.go","transports/http/endpoints/api/headers","TestSeedDemo","GET byHeight with a negative or absurdly large count (slice capacity from the query)"),
+ "C06-i":("C06","zz_seed_demo_test.go","transports/p2p/p2psync","TestSeedDemo","the sync peer disconnects mid-sync and is still in the candidate map when the replacement is chosen"),
 }
 ENV=dict(os.environ,GOFLAGS="-mod=mod",GOPROXY="off")
 def run(cmd,cwd,timeout=1500):
